@@ -8,7 +8,7 @@ SRC="/tmp/seed/$ID/SEED"; [ -f "$SRC/patch.diff" ] || SRC="/verif/seeded/$ID"
 CHECKS="${*:-$ID}"
 WT="$(mktemp -d /tmp/seedwt-XXXXXX)"; rmdir "$WT"
 git -C /repo worktree add --detach -q "$WT" HEAD || exit 2
-echo "== $ID: patch"; git -C "$WT" apply "$SRC/patch.diff" || { echo "PATCH DOES NOT APPLY"; git -C /repo worktree remove --force "$WT"; exit 2; }
+echo "== $ID: patch"; git -C "$WT" apply "$SRC/patch.diff" 2>/dev/null || git -C "$WT" apply --3way "$SRC/patch.diff" || { echo "PATCH DOES NOT APPLY"; git -C /repo worktree remove --force "$WT"; exit 2; }
 git -C "$WT" diff --stat | tail -1
 echo "== tests with the change"
 ( cd "$WT" && PYTHONPATH="$WT" /venv/bin/python -m pytest -q -p no:cacheprovider test 2>&1 | grep -E "passed|failed|error" | tail -1 )
@@ -16,9 +16,9 @@ rm -f "$WT/circuit.r1cs" "$WT/witness.wtns"
 echo "== demo with the change (expect failure)"
 D=$(mktemp -d); ( cd "$D" && SEED_REPO="$WT" PYTHONPATH="$WT:/tmp/seedtools/py" PYSNARK_BACKEND="${SEED_BACKEND:-snarkjs}" QAPTOOLS_BIN=/tmp/seedtools/qaptools-bin timeout 300 /venv/bin/python "$SRC/demo.py" > "$D/out.txt" 2>&1; echo "demo rc=$?"; tail -3 "$D/out.txt" )
 echo "== demo without the change (expect success)"
-git -C "$WT" apply -R "$SRC/patch.diff"
+git -C "$WT" diff > "$WT.applied.diff"; git -C "$WT" checkout -q -- . 2>/dev/null; git -C "$WT" reset -q --hard HEAD
 ( cd "$D" && SEED_REPO="$WT" PYTHONPATH="$WT:/tmp/seedtools/py" PYSNARK_BACKEND="${SEED_BACKEND:-snarkjs}" QAPTOOLS_BIN=/tmp/seedtools/qaptools-bin timeout 300 /venv/bin/python "$SRC/demo.py" > "$D/out0.txt" 2>&1; echo "demo rc=$?"; tail -2 "$D/out0.txt" )
-git -C "$WT" apply "$SRC/patch.diff"
+git -C "$WT" apply "$WT.applied.diff"; rm -f "$WT.applied.diff"
 rm -rf "$D"
 for C in $CHECKS; do
   echo "== check $C against the change"
